@@ -13,16 +13,19 @@ Proof. reflexivity. Qed.
 Lemma ser_read_s_app n x rest : 0 <= n <= MAX_SIZE -> lenZ x = n -> ser_read_s n (x ++ rest) = (Ok x, rest).
 Proof.
   intros Hn Hx. unfold ser_read_s, py_read.
-  destruct (Z.gtb_spec n MAX_SIZE); [lia|]. destruct (Z.ltb_spec n 0); [lia|]. cbn [fst snd].
-  replace (Z.to_nat n) with (length x) by (unfold lenZ in Hx; lia).
-  rewrite firstn_app, firstn_all, Nat.sub_diag, skipn_app, skipn_all, Nat.sub_diag. cbn [firstn skipn app]. rewrite app_nil_r.
-  destruct (Z.ltb_spec (lenZ x) n); [lia|reflexivity].
+  destruct (Z.gtb_spec n MAX_SIZE); [lia|]. destruct (Z.ltb_spec n 0); [lia|].
+  destruct (Z.leb_spec (lenZ (x ++ rest)) n) as [Hl|Hl]; cbn [fst snd].
+  - rewrite lenZ_app in Hl. pose proof (lenZ_nonneg rest). assert (rest = []) as -> by (destruct rest; [reflexivity|unfold lenZ in *; simpl length in *; lia]).
+    rewrite app_nil_r. destruct (Z.ltb_spec (lenZ x) n); [lia|reflexivity].
+  - replace (Z.to_nat n) with (length x) by (unfold lenZ in Hx; lia).
+    rewrite firstn_app, firstn_all, Nat.sub_diag, skipn_app, skipn_all, Nat.sub_diag. cbn [firstn skipn app]. rewrite app_nil_r.
+    destruct (Z.ltb_spec (lenZ x) n); [lia|reflexivity].
 Qed.
 Lemma ser_read_s_short n b : 0 <= n <= MAX_SIZE -> lenZ b < n -> ser_read_s n b = (Err Trunc, []).
 Proof.
   intros Hn Hb. unfold ser_read_s, py_read.
-  destruct (Z.gtb_spec n MAX_SIZE); [lia|]. destruct (Z.ltb_spec n 0); [lia|]. cbn [fst snd].
-  rewrite firstn_all2, skipn_all2 by (unfold lenZ in Hb; lia).
+  destruct (Z.gtb_spec n MAX_SIZE); [lia|]. destruct (Z.ltb_spec n 0); [lia|].
+  destruct (Z.leb_spec (lenZ b) n); [|lia]. cbn [fst snd].
   destruct (Z.ltb_spec (lenZ b) n); [reflexivity|lia].
 Qed.
 Lemma ser_read_s_big n b : MAX_SIZE < n -> ser_read_s n b = (Err SerErr, b).
@@ -33,12 +36,15 @@ Lemma ser_read_s_spec n b r rest : 0 <= n -> ser_read_s n b = (r, rest) ->
 Proof.
   intros Hn. unfold ser_read_s, py_read. destruct (Z.gtb_spec n MAX_SIZE).
   - intros E. injection E as <- <-. exists []. split; [reflexivity|]. split; [unfold lenZ; simpl; lia|discriminate].
-  - destruct (Z.ltb_spec n 0); [lia|]. cbn [fst snd].
-    assert (L : lenZ (firstn (Z.to_nat n) b) <= n) by (unfold lenZ; rewrite firstn_length; lia).
-    destruct (Z.ltb_spec (lenZ (firstn (Z.to_nat n) b)) n); intros E; injection E as <- <-;
-      exists (firstn (Z.to_nat n) b); (split; [symmetry; apply firstn_skipn|]); (split; [exact L|]).
-    + discriminate.
-    + intros x E. injection E as <-. split; [reflexivity|lia].
+  - destruct (Z.ltb_spec n 0); [lia|]. destruct (Z.leb_spec (lenZ b) n) as [Hl|Hl]; cbn [fst snd].
+    + destruct (Z.ltb_spec (lenZ b) n); intros E; injection E as <- <-; exists b; rewrite app_nil_r;
+        (split; [reflexivity|]); (split; [exact Hl|]); [discriminate|].
+      intros x E. injection E as <-. split; [reflexivity|lia].
+    + assert (L : lenZ (firstn (Z.to_nat n) b) <= n) by (unfold lenZ; rewrite firstn_length; lia).
+      destruct (Z.ltb_spec (lenZ (firstn (Z.to_nat n) b)) n); intros E; injection E as <- <-;
+        exists (firstn (Z.to_nat n) b); (split; [symmetry; apply firstn_skipn|]); (split; [exact L|]).
+      * discriminate.
+      * intros x E. injection E as <-. split; [reflexivity|lia].
 Qed.
 
 (* ---------- header fields ---------- *)
